@@ -373,6 +373,10 @@ def r_baseops(ctx):
     pw = repo.cls("Point").methods.get("__pow__")
     okp = pw is not None and any(isinstance(r, ast.Return) and src(r.value).replace(" ", "") in ("self.__rmul__(self)", "self.__rmul__(other=self)", "self*self", "self.__mul__(self)") for r in ast.walk(pw))
     ctx.ob("R-BASEOPS", "Point.__pow__", okp, "x ** 2 is x * x" if okp else "x ** 2 is not defined as x * x", loc(pw, pw) if pw else "PEPit/point.py")
+
+
+def r_hash(ctx):
+    repo = ctx.repo
     # hash kept by a class that overrides __eq__
     ex = repo.cls("Expression")
     okh = "__eq__" not in ex.methods or "__hash__" in ex.methods
@@ -398,12 +402,172 @@ def _new_nonleaf(expr, cname, fn, merges):
     return dotted(d) in names or d in merges
 
 
+# ---------------------------------------------------------------------------------------------------
+# R-OPSEM: every operator on every operand kind, by abstract interpretation of the method bodies
+# ---------------------------------------------------------------------------------------------------
+def _d_add(a, b):
+    out = dict(a)
+    for k, v in b.items():
+        out[k] = out[k] + v if k in out else v
+    return out
+
+
+def _d_scale(a, c):
+    return {k: v * c for k, v in a.items()}
+
+
+def _d_mul(a, b):
+    out = {}
+    for k1, v1 in a.items():
+        for k2, v2 in b.items():
+            k = (k1, k2)
+            out[k] = out[k] + v1 * v2 if k in out else v1 * v2
+    return out
+
+
+def r_opsem(ctx):
+    from .. import opsem
+    from ..opsem import AObj, AScalar, ACons, Raised, LeafCreated, OpInterp, dicts_equal, show_dict
+    repo = ctx.repo
+    S = Rat.sym
+
+    def operands():
+        return {
+            "Point": AObj("Point", {"A": S("a1"), "B": S("a2")}),
+            "Point2": AObj("Point", {"B": S("b1"), "C": S("b2")}),
+            "Expression": AObj("Expression", {"E": S("e1"), ("A", "B"): S("e2"), 1: S("e3")}),
+            "Expression2": AObj("Expression", {"E": S("g1"), "F": S("g2"), 1: S("g3")}),
+            "Function": AObj("Function", {"f1": S("u1"), "f2": S("u2")}, frozenset({"rs"})),
+            "Function2": AObj("Function", {"f2": S("v1"), "f3": S("v2")}, frozenset({"ro"})),
+            "int": AScalar(S("c"), "int"),
+            "float": AScalar(S("c"), "float"),
+        }
+
+    c = S("c")
+    n_cases = 0
+    for cname in DSL:
+        cls = repo.cls(cname)
+        for op in OPS:
+            fn = cls.methods.get(op)
+            if fn is None:
+                continue
+            ctx.unit("%s.%s" % (cname, op))
+            unary = len(params_of(fn)) == 1
+            kinds = [None] if unary else ["Point", "Expression", "Function", "int", "float"]
+            for kind in kinds:
+                n_cases += 1
+                ops_ = operands()
+                me = ops_[cname]
+                arg = None
+                if kind is not None:
+                    arg = ops_[kind + "2"] if kind == cname else ops_[kind]
+                if op == "__pow__":
+                    arg = AScalar(Rat(2), "int") if kind == "int" else arg
+                before_me = dict(me.dd)
+                before_arg = dict(arg.dd) if isinstance(arg, AObj) else None
+                key = "%s.%s(%s)" % (cname, op, kind or "")
+                want = _expected(cname, op, me, kind, arg, c)
+                it = OpInterp(repo, cls.module)
+                try:
+                    got = it.invoke(me, op, [] if unary else [arg])
+                    outcome = ("value", got)
+                except Raised as r:
+                    outcome = ("raise", r.kind)
+                except LeafCreated as e:
+                    ctx.ob("R-OPSEM", key, False, str(e), loc(fn, fn))
+                    continue
+                except Exception as e:
+                    if type(e).__name__ in ("_Unknown", "AnalysisError"):
+                        raise AnalysisError("%s: operator body outside the analysed fragment: %s" % (key, e))
+                    raise
+                if want is None:
+                    ok = outcome[0] == "raise"
+                    msg = "an operand of kind %s is rejected (%s)" % (kind, outcome[1]) if ok else \
+                        "an operand of kind %s is accepted and yields `%r`; only the documented kinds %s have a meaning here" % (
+                            kind, outcome[1], sorted(KIND_TABLE.get((cname, op), [])))
+                elif outcome[0] == "raise":
+                    ok, msg = False, "raises %s on a documented operand kind (%s)" % (outcome[1], kind)
+                else:
+                    got = outcome[1]
+                    if want[0] == "obj":
+                        ok = isinstance(got, AObj) and got.cls == want[1] and dicts_equal(got.dd, want[2]) and (want[3] is None or got.flag == want[3])
+                        msg = "denotes %s%s" % (want[1], show_dict(want[2])) if ok else "yields `%r`%s, the calculus gives %s%s%s" % (
+                            got, " flag %s" % sorted(got.flag) if isinstance(got, AObj) and got.flag is not None else "", want[1], show_dict(want[2]),
+                            " flag %s" % sorted(want[3]) if want[3] is not None else "")
+                    else:
+                        ok = isinstance(got, ACons) and got.sense == want[2] and dicts_equal(got.expr.dd, want[1])
+                        msg = "yields the constraint %s %s 0" % (show_dict(want[1]), want[2]) if ok else "yields `%r`, expected Constraint(%s, %s)" % (got, show_dict(want[1]), want[2])
+                    if ok:
+                        # operands untouched, result is a new object
+                        same = dicts_equal(me.dd, before_me) and len(me.dd) == len(before_me) and (before_arg is None or (dicts_equal(arg.dd, before_arg) and len(arg.dd) == len(before_arg)))
+                        fresh = not isinstance(got, AObj) or (got is not me and got is not arg and got.dd is not me.dd and (not isinstance(arg, AObj) or got.dd is not arg.dd))
+                        if not same:
+                            ok, msg = False, "an operand is modified: %s -> %s" % (show_dict(before_me), show_dict(me.dd))
+                        elif not fresh:
+                            ok, msg = False, "the result shares its decomposition dictionary with an operand (later operations on either would alter both)"
+                ctx.ob("R-OPSEM", key, ok, msg, loc(fn, fn))
+                if len(ctx.samples) < 12 and want is not None:
+                    ctx.sample({"rule": "R-OPSEM", "case": key, "result": msg})
+    ctx.count("operator x operand-kind cases", n_cases)
+    return n_cases
+
+
+def _expected(cname, op, me, kind, arg, c):
+    """('obj', class, dict, flag) | ('cons', dict, sense) | None (must raise)"""
+    from ..opsem import AObj
+    a = me.dd
+    scalar = kind in ("int", "float")
+    same = kind == cname
+    flag = me.flag
+    if op == "__neg__":
+        return ("obj", cname, _d_scale(a, Rat(-1)), flag)
+    if op == "__pow__":
+        if cname == "Point" and kind == "int":
+            return ("obj", "Expression", _d_mul(a, a), None)
+        return None
+    if op in ("__add__", "__radd__", "__sub__", "__rsub__"):
+        if cname == "Expression" and scalar:
+            b = {1: c}
+        elif same and op not in ("__radd__", "__rsub__") or (same and cname == "Expression"):
+            b = arg.dd
+        else:
+            return None
+        if op == "__radd__" and cname != "Expression":
+            return None
+        f2 = (flag | arg.flag) if (flag is not None and isinstance(arg, AObj) and arg.flag is not None) else flag
+        if op in ("__add__", "__radd__"):
+            return ("obj", cname, _d_add(a, b), f2)
+        if op == "__sub__":
+            return ("obj", cname, _d_add(a, _d_scale(b, Rat(-1))), f2)
+        return ("obj", cname, _d_add(b, _d_scale(a, Rat(-1))), f2)
+    if op in ("__mul__", "__rmul__"):
+        if scalar:
+            return ("obj", cname, _d_scale(a, c), flag)
+        if cname == "Point" and kind == "Point":
+            return ("obj", "Expression", _d_mul(a, arg.dd), None)
+        return None
+    if op == "__truediv__":
+        if scalar:
+            return ("obj", cname, _d_scale(a, Rat(1) / c), flag)
+        return None
+    if op in ("__le__", "__lt__", "__ge__", "__gt__", "__eq__") and cname == "Expression":
+        if scalar:
+            b = {1: c}
+        elif same:
+            b = arg.dd
+        else:
+            return None
+        diff = _d_add(a, _d_scale(b, Rat(-1)))
+        if op in ("__ge__", "__gt__"):
+            diff = _d_scale(diff, Rat(-1))
+        return ("cons", diff, "equality" if op == "__eq__" else "inequality")
+    return None
+
+
 def run(ctx):
     r_nomut(ctx)
-    n = r_closed(ctx)
-    r_reflect(ctx)
-    r_baseops(ctx)
-    wrappers.r_cmp(ctx)
     dictops.r_dictops(ctx)
+    r_hash(ctx)
+    n = r_opsem(ctx)
     ctx.floor("operator methods", ctx.analysed.get("operator methods", 0), 26)
-    ctx.floor("operators with documented operand kinds", n, 22)
+    ctx.floor("operator x operand-kind cases", n, 100)
